@@ -397,3 +397,7 @@ func V17stStreamName(partType, name string) string {
 	}
 	return "?" + name
 }
+
+// SkipPartIDs advances the table's part-id counter by n, as n earlier flushes / merges would have: the next part gets
+// id current+n+1 (round 2: sender parts whose id reads differently in decimal and in the 16-digit hex directory name).
+func (v *V17stTable) SkipPartIDs(n uint64) { atomic.AddUint64(&v.tst.curPartID, n) }
